@@ -3,6 +3,7 @@ C08 — Controllers move demand only in the documented direction and amount.
 -/
 import CobaldVerif.Lemmas.Controllers
 import CobaldVerif.Generated.Src
+import CobaldVerif.Generated.SrcControllers
 import Mathlib.Tactic.Ring
 
 namespace Cobald.Props.C08
@@ -177,4 +178,27 @@ theorem gen_relsupply_eq (c : RelSupply) (p : Pool) :
   unfold Gen.relSupplyRegulate relStep
   split <;> (try split) <;> simp
 
+/-! ### the source's selection loops (`Generated/SrcControllers.lean`, from `controller/switch.py`
+and `controller/stepwise.py`) -/
+
+/-- `DemandSwitch.regulate` as written in the source selects the model's controller -/
+theorem gen_switch_select_eq (dflt : CtlId) (sorted : List (Rat × CtlId)) (demand : Rat) :
+    Gen.Controllers.switchSelect dflt sorted demand = switchSelect dflt sorted demand := rfl
+
+/-- `RangeSelector.get_rule` as written in the source is the model's `getRule` -/
+theorem gen_get_rule_eq (l : Lookup) (s : Rat) : Gen.Controllers.getRule l s = getRule l s := by
+  induction l with
+  | nil => rfl
+  | cons x rest ih =>
+    obtain ⟨low, high, r⟩ := x
+    simp only [Gen.Controllers.getRule, getRule, ih]
+
+/-- `_compile_lookup` starts the ranges at the model's first lower bound, and the constructor / `run`
+have the modelled shape (slaves sorted, everyone bound to the switch's target; one lookup, one rule
+call, one conditional write per period) -/
+theorem gen_shapes :
+    (∀ base rules, compile base rules =
+      (let l := mkRanges Gen.Controllers.compileFirstLow base (sortRules rules); if rangesOk l then some l else none)) ∧
+    Gen.Controllers.switchCtorShape = true ∧ Gen.Controllers.stepwiseRunShape = true :=
+  ⟨fun _ _ => rfl, rfl, rfl⟩
 end Cobald.Props.C08
